@@ -143,6 +143,7 @@ def check_read(case, ctx):
     ctx.label("comments-in-notes", any(t is not None for c in sk["charts"] for _, _, t in c["style"]["extras"]))
     ctx.label("blank-lines-in-notes", any(t is None for c in sk["charts"] for _, _, t in c["style"]["extras"]))
     ctx.label("header-comments", any(t is not None for _, t in stl["extras"]))
+    ctx.label("header-comment-with-#", any(t is not None and "#" in t for _, t in stl["extras"]))
     ctx.label("tags-shuffled", [t for t in tags if t in ("OFFSET", "BPMS")] != ["OFFSET", "BPMS"] or bool(stl["tags_after"]))
     ctx.label("one-line-notes-header", any(c["style"]["one_line"] for c in sk["charts"]))
     ctx.label("io=" + case["io"])
